@@ -334,7 +334,7 @@ func runWorld(spec *Spec, ch *sim.Choices, res *Result, uniq string) {
 			p.LatMode = spec.Variant % 3
 		}
 		if p.Proto == "tcp" {
-			tw := worlds.NewTCP(s, p)
+			tw := worlds.NewTCP(s, p, spec.Prop)
 			if err := tw.Setup(); err != nil {
 				res.Infra = "setup: " + err.Error()
 				return
